@@ -288,8 +288,29 @@ func genTxn(cfg simkit.RunConfig, faulted bool) *Scenario {
 		}
 		t.Ops = append(t.Ops, TxnOp{K: k})
 	}
-	shape := r.Intn(10)
+	shape := r.Intn(11)
+	staleRead := false
 	switch {
+	case shape == 10 && len(t.Keys) >= 3:
+		// keys that have left both local buffers are read back in one batch after the region the client has
+		// cached them in was split between them
+		t.Shape = "read-after-split"
+		staleRead = true
+		ks := append([]string(nil), t.Keys...)
+		sort.Strings(ks)
+		n := 3 + r.Intn(len(ks)-2)
+		ks = ks[:n]
+		for _, k := range ks {
+			write(k)
+		}
+		t.Ops = append(t.Ops, TxnOp{K: "fflush"}, TxnOp{K: "wait"})
+		write(ks[r.Intn(len(ks))])
+		t.Ops = append(t.Ops, TxnOp{K: "fflush"}, TxnOp{K: "wait"})
+		t.Ops = append(t.Ops, TxnOp{K: "split", Keys: []string{ks[1+r.Intn(len(ks)-1)]}})
+		t.Ops = append(t.Ops, TxnOp{K: "bget", Keys: ks})
+		for i := r.Intn(3); i > 0; i-- {
+			read()
+		}
 	case shape < 2:
 		// exactly one flushed key (possibly flushed more than once)
 		t.Shape = "single-key"
@@ -379,7 +400,7 @@ func genTxn(cfg simkit.RunConfig, faulted bool) *Scenario {
 			splits[k+"\x00"] = true
 		}
 	}
-	if r.Intn(6) == 0 {
+	if r.Intn(6) == 0 || staleRead {
 		splits = map[string]bool{} // a single region
 	}
 	for k := range splits {
